@@ -92,7 +92,7 @@ func genSusp2(t *rapid.T) SuspCase {
 
 var suspPoints = []string{"put.indexGot", "put.primaryChecked", "put.primaryPut", "put.indexUpdated", "remove.indexGot", "remove.primaryChecked", "remove.indexRemoved"}
 
-const suspRuleText = "Suspended-call crash sub-campaign: after a generated sequential prefix one foreground call (overwrite / Put of a new key / Remove) is parked by the cooperative scheduler at a drawn point between its sub-steps (index lookup, primary check, primary put, index update / removal, freelist put), a second task writes other keys and completes a Flush, and the directory is copied while every task is parked or finished (a process crash at that instant); the image is opened and must satisfy the independent fsck, read every other key exactly as flushed and the suspended call's key as its old or its new value, and keep doing so after a primary GC cycle, an index GC cycle and a flush; second shape (two preemptions): a GC cycle is parked at a drawn point inside the cycle, a Flush with acknowledged unflushed writes pending runs up to a drawn point inside the flush pipeline, the GC cycle completes, and the image is taken with the flush still suspended - every key must then read one of the states it had since the last completed flush"
+const suspRuleText = "Suspended-call crash sub-campaign: after a generated sequential prefix one foreground call (overwrite / Put of a new key / Remove) is parked by the cooperative scheduler at a drawn point between its sub-steps (index lookup, primary check, primary put, index update / removal, freelist put), a second task writes other keys and completes a Flush, and the directory is copied while every task is parked or finished (a process crash at that instant); the image is opened and must satisfy the independent fsck, read every other key exactly as flushed and the suspended call's key as its old or its new value, and keep doing so after a primary GC cycle, an index GC cycle and a flush; second shape (two preemptions): a GC cycle is parked at a drawn point inside the cycle, a Flush with acknowledged unflushed writes pending runs up to a drawn point inside the flush pipeline, the GC cycle completes, and the image is taken with the flush still suspended - every key must then read one of the states it had since the last completed flush; third shape: a Flush is suspended at a drawn point, a writer task completes 1-3 calls, the flush completes, crash before the next flush; fourth shape: two overlapping Flush calls (the first suspended at a drawn point while the second runs as far as it gets, then at a later point while the writer's calls complete), then both complete and the process dies - what was acknowledged before the first flush began must be durable, the calls inside may or may not be, nothing else may be read"
 
 func genSusp(t *rapid.T) SuspCase {
 	var c SuspCase
